@@ -5,6 +5,7 @@ package main
 // evidence is written on every run.
 
 import (
+	"regexp"
 	"bufio"
 	"encoding/json"
 	"flag"
@@ -80,6 +81,8 @@ func readClaims(path string) (*Claims, error) {
 type KnownFinding struct {
 	Property   string `json:"property"`
 	Obligation string `json:"obligation"`
+	Input      string `json:"input,omitempty"` // regexp on a FAILING-INPUT line of the bounded harness: the specific failing inputs this finding stands for
+	InputsFile string `json:"inputs_file,omitempty"` // file under /verif listing exactly the failing inputs (normalised FAILING-INPUT lines) the finding stands for
 	What       string `json:"what"`
 	Status     string `json:"status"` // "known" or "fixed"
 	Commit     string `json:"commit,omitempty"`
@@ -249,12 +252,35 @@ func cmdCheck(args []string) int {
 	}
 	var claimed []*Obligation
 	var missing []string
+	retRe := regexp.MustCompile(`@ret[0-9]+`)
+	byBase := map[string][]*Obligation{}
+	for _, o := range allObls {
+		b := retRe.ReplaceAllString(o.Name, "")
+		byBase[b] = append(byBase[b], o)
+	}
+	taken := map[string]bool{}
 	for _, name := range claims.Obls {
 		if o, ok := generated[name]; ok {
-			claimed = append(claimed, o)
-		} else {
-			missing = append(missing, name)
+			if !taken[o.Name] {
+				claimed = append(claimed, o)
+				taken[o.Name] = true
+			}
+			continue
 		}
+		// the number of return paths changed: a claimed postcondition stands for
+		// the postcondition on every return path
+		if strings.Contains(name, "/ensures") {
+			if os2 := byBase[retRe.ReplaceAllString(name, "")]; len(os2) > 0 {
+				for _, o := range os2 {
+					if !taken[o.Name] {
+						claimed = append(claimed, o)
+						taken[o.Name] = true
+					}
+				}
+				continue
+			}
+		}
+		missing = append(missing, name)
 	}
 	claimedSet := map[string]bool{}
 	for _, n := range claims.Obls {
@@ -277,12 +303,76 @@ func cmdCheck(args []string) int {
 	harnessRan := false
 	harnessOK := true
 	harnessT := 0.0
+	var harnessKnown []string
 	runH := func() {
 		if harnessRan || claims.Harness == "" {
 			return
 		}
 		harnessRan = true
 		harnessOK, harnessOut, harnessT = runHarness(*repo, filepath.Join(root, "replay", claims.Harness), claims.HarnessPkg, claims.HarnessRun, *tier, seed, nil)
+		if !harnessOK {
+			// failing inputs that are listed known findings do not count; anything else does
+			kfs := readKnown(filepath.Join(root, "known_findings.jsonl"))
+			var lines, unmatched []string
+			for _, l := range strings.Split(harnessOut, "\n") {
+				if strings.Contains(l, "FAILING-INPUT") {
+					lines = append(lines, l)
+				}
+			}
+			hit := map[int]bool{}
+			listed := map[int]map[string]bool{}
+			for i, kf := range kfs {
+				if kf.Property == id && kf.Status == "known" && kf.InputsFile != "" {
+					listed[i] = map[string]bool{}
+					if data, err := os.ReadFile(filepath.Join(root, kf.InputsFile)); err == nil {
+						for _, ln := range strings.Split(string(data), "\n") {
+							if ln = strings.TrimSpace(ln); ln != "" {
+								listed[i][ln] = true
+							}
+						}
+					}
+				}
+			}
+			for _, l := range lines {
+				ok := false
+				norm := normFailing(l)
+				for i, kf := range kfs {
+					if kf.Property != id || kf.Status != "known" {
+						continue
+					}
+					if kf.Input != "" {
+						re, err := regexp.Compile(kf.Input)
+						if err != nil || !re.MatchString(l) {
+							continue
+						}
+					} else if kf.InputsFile == "" {
+						continue
+					}
+					if kf.InputsFile != "" && !listed[i][norm] {
+						continue // same symptom, but not one of the inputs the finding lists: a different violation
+					}
+					ok = true
+					hit[i] = true
+					break
+				}
+				if !ok {
+					unmatched = append(unmatched, l)
+				}
+			}
+			if len(lines) > 0 && len(unmatched) == 0 {
+				harnessOK = true
+				for i := range kfs {
+					if hit[i] {
+						harnessKnown = append(harnessKnown, fmt.Sprintf("KNOWN-FINDING: property=%s %s", id, kfs[i].What))
+					}
+				}
+			} else if len(unmatched) > 0 && len(unmatched) < len(lines) {
+				if len(unmatched) > 30 {
+					unmatched = unmatched[:30]
+				}
+				harnessOut = tail(harnessOut, 2000) + "\nfailing inputs not covered by a known finding:\n" + strings.Join(unmatched, "\n")
+			}
+		}
 	}
 	if nUndecided > 0 {
 		// tie undecided obligations to the real code first; only when the bounded
@@ -316,7 +406,7 @@ func cmdCheck(args []string) int {
 	known := readKnown(filepath.Join(root, "known_findings.jsonl"))
 	isKnown := func(obl string) *KnownFinding {
 		for i := range known {
-			if known[i].Property == id && known[i].Obligation == obl && known[i].Status == "known" {
+			if known[i].Property == id && known[i].Obligation == obl && known[i].Status == "known" && known[i].Input == "" && known[i].InputsFile == "" {
 				return &known[i]
 			}
 		}
@@ -371,6 +461,9 @@ func cmdCheck(args []string) int {
 		fmt.Printf("VIOLATION property=%s replay=%s%s\n", id, p, suffix)
 	}
 	for _, l := range knownLines {
+		fmt.Println(l)
+	}
+	for _, l := range harnessKnown {
 		fmt.Println(l)
 	}
 	// bounded stand-in failure (or thorough harness failure) without a failed obligation
@@ -498,6 +591,17 @@ func sortedContractKeys(m map[string]*Contract) []string {
 }
 
 func round3(f float64) float64 { return float64(int(f*1000+0.5)) / 1000 }
+
+var failingRunRe = regexp.MustCompile(` \(run [0-9]+\)`)
+
+// normFailing normalises a FAILING-INPUT line of a harness: the text from
+// FAILING-INPUT on, without the repetition counter.
+func normFailing(l string) string {
+	if i := strings.Index(l, "FAILING-INPUT"); i >= 0 {
+		l = l[i:]
+	}
+	return strings.TrimSpace(failingRunRe.ReplaceAllString(l, ""))
+}
 
 func tail(s string, n int) string {
 	if len(s) > n {
